@@ -223,7 +223,12 @@ def gen_stmts(rng, depth, budget, slots, weights=None, amo_p=0.35, large_p=0.3):
             out.append({"op": "invoke", "payload": rng.choice(["None", "i5", "t", "f1", "s", "lst", "d", "e", "z"]), "catch": rng.random() < 0.6})
         elif op == "wfc":
             k = rng.randrange(1, 4)
-            out.append({"op": "wfc", "init": rng.choice(TOKENS), "check": [gen_outcome(rng, 0.2) for _ in range(k)],
+            checks = [gen_outcome(rng, 0.2) for _ in range(k)]
+            if rng.random() < 0.3:
+                # consecutive polls returning values that are == in Python yet different (1/True, 0/False/0.0)
+                fam = rng.choice([["t", "i1"], ["z", "fl", "f0"]])
+                checks = [{"ok": rng.choice(fam)} if "ok" in c else c for c in checks]
+            out.append({"op": "wfc", "init": rng.choice(TOKENS + ["t", "i1", "z", "fl"]), "check": checks,
                         "decide": [rng.choice([None, 0, 1, 2]) for _ in range(k - 1)] + [None], "catch": rng.random() < 0.6})
         elif op == "child":
             body = gen_stmts(rng, depth - 1, budget, list(slots), weights, amo_p, large_p)
@@ -266,6 +271,10 @@ def gen_plan(rng, inv_index, crash_p, fault_p, script=None):
     plan = {"imm": [], "page_size": rng.choice([None, None, 1, 2, 3])}
     if rng.random() < 0.12:
         plan["first_empty"] = True
+    if plan["page_size"] and rng.random() < 0.2:
+        plan["mid_empty"] = True
+    if rng.random() < 0.25:
+        plan["resp_page_size"] = rng.choice([1, 1, 2])     # checkpoint responses split over pages too
     if script is not None and rng.random() < 0.25:
         for pos, op in static_positions(script):
             if op in ("wait", "invoke", "cbnew") and rng.random() < 0.4:
